@@ -118,6 +118,8 @@ pub struct Interp<'p> {
     pub escaped_closure_calls: u32,
     activation_live: Vec<bool>,
     closure_born_in: Vec<u32>,
+    /// number of compound expressions currently holding already-evaluated operands
+    pending: u32,
 }
 
 pub struct RunResult {
@@ -177,6 +179,7 @@ impl<'p> Interp<'p> {
             escaped_closure_calls: 0,
             activation_live: vec![true],
             closure_born_in: Vec::new(),
+            pending: 0,
         }
     }
 
@@ -490,7 +493,7 @@ impl<'p> Interp<'p> {
         let reentrant = self.active_defs.iter().any(|d| *d == def as *const FnDef);
         if reentrant {
             self.hit(Cov::Recursion);
-            if !self.outstanding.is_empty() || self.depth > 0 {
+            if self.pending > 0 {
                 self.held_across_reentry += 1;
             }
         }
@@ -690,8 +693,15 @@ impl<'p> Interp<'p> {
 
     fn eval_list(&mut self, xs: &'p [Expr], frame: &mut Vec<(VarId, u32)>) -> R<Vec<Val>> {
         let mut out = Vec::with_capacity(xs.len());
-        for x in xs {
-            out.push(self.eval(x, frame)?);
+        for (i, x) in xs.iter().enumerate() {
+            if i > 0 {
+                self.pending += 1;
+            }
+            let v = self.eval(x, frame);
+            if i > 0 {
+                self.pending -= 1;
+            }
+            out.push(v?);
         }
         Ok(out)
     }
@@ -725,7 +735,10 @@ impl<'p> Interp<'p> {
                 }
                 BinOp::Add | BinOp::Sub | BinOp::Mul | BinOp::Div => {
                     let l = self.eval(a, frame)?;
-                    let r = self.eval(b, frame)?;
+                    self.pending += 1;
+                    let r = self.eval(b, frame);
+                    self.pending -= 1;
+                    let r = r?;
                     match self.arith(*op, &l, &r) {
                         Ok(v) => Ok(v),
                         Err(e) => dynerr("arith", e),
